@@ -113,6 +113,15 @@ def run(tier):
     gcm = [c for c in cmds if c["sc"] in gcm_sc]
     sm3 = [c for c in cmds if c["sc"] not in gcm_sc]
     chk.exec_and_validate("T_GCM", gcm, keyfn, cost=cost, accel=True, pure_budget=6000000, tag="gcm")
+    # the same shapes on the arm64 Go glue transplanted onto the amd64 kernels (vlib/glue.py)
+    gsc = sorted(gcm_sc)
+    gsel = set(gsc[::3]) if tier == "quick" else set(gsc)
+    gl = [dict(c) for c in gcm if c["sc"] in gsel]
+    for c in gl:
+        if c["op"] == "scenario":
+            c["cls"] = "glue_" + c.get("cls", "")
+    chk.exec_and_validate("T_GCM", gl, lambda b: "glue." + keyfn(b), cost=cost, accel=True, pure_budget=0, tag="glue",
+                          variant="glue")
     chk.exec_and_validate("T_SM3", sm3, keyfn, tag="sm3")
     # SM2 entry points: key, digest, id, message, signature and public-key slices byte-identical after
     # every call (T_SM2 compares the ins_after / priv_after snapshots), each call made twice
